@@ -2,7 +2,8 @@
    the rescanning kernels and of vrank (run_ksteps, run_ksteps2, run_vrank_segs) at the float carrier. *)
 From Coq Require Import ZArith List Floats.
 From Tevec Require Import Base.Prelude Base.Num Base.F64 Model.Driver Model.Features Model.Cmp Model.Norm
-     Model.Binary Model.Reg Model.Kernels Model.SortCmp Model.Rank Model.KernelsMap Model.KernelSteps Run.Codec.
+     Model.Binary Model.Reg Model.Kernels Model.SortCmp Model.Rank Model.KernelsMap Model.KernelSteps Model.KernelsMapFast
+     Run.Codec.
 Import ListNotations.
 
 Definition zn := Z.of_nat.
@@ -79,25 +80,37 @@ Definition run_ksteps (fn : Z) (body : bool) (w : nat) (mp : option nat) (pct re
             ++ enc_status (ts_vminmaxnorm (DT := IsNoneF64) f64_min f64_max body w mp xs)
    end)%Z.
 
-(* fn: 0 ts_vregx_resid_mean, 1 .._std, 2 .._skew; the second series may be shorter or longer *)
+(* fn: 0 ts_vregx_resid_mean, 1 .._std, 2 .._skew; the second series may be shorter or longer.
+   MODEL CORNER (reported in notes/C10.md, Model/Driver.v is a shared file and is left as it is):
+   `rolling2_apply_idx_default` tests `bad_window` on the ZIPPED series, the code asserts
+   `window > 0 || self.is_empty()` on SELF.  They differ exactly when window = 0, self is non-empty and the
+   second series is empty (iterator body): the code panics (assert), the model returns Done [].  No access
+   happens on either side.  The status emitted here follows the code in that corner (`resid_corner`).     *)
+Definition resid_corner (body : bool) (w : nat) (xs ys : list float) : bool :=
+  negb body && (w =? 0)%nat && negb (length xs =? 0)%nat && (length ys =? 0)%nat.
 Definition run_ksteps2 (fn : Z) (body : bool) (w : nat) (mp : option nat) (xs ys : list float) : list Z :=
   let K := (match fn with 0 => RMean | 1 => RStd | _ => RSkew end)%Z in
   flat_map enc_step (steps_ts_vregx_resid (A := float) (D1 := IsNoneF64) (D2 := IsNoneF64) K body w mp xs ys)
-  ++ enc_status (ts_vregx_resid (A := float) (D1 := IsNoneF64) (D2 := IsNoneF64) K body w mp xs ys).
+  ++ (if resid_corner body w xs ys then c_panic AssertFail
+      else enc_status (ts_vregx_resid (A := float) (D1 := IsNoneF64) (D2 := IsNoneF64) K body w mp xs ys)).
 
 (* vrank: the observable trace cut at its writes.  A segment:
        reads of the series since the previous write, as the SORTED multiset of the class representatives
        (first index holding an equal element: an unstable sort may order equal elements either way)
-       the write (raw slot)  SEP
-   then the number of outputs.                                                                         *)
+       the write: the class representative of the slot, then the raw slot  SEP
+   then the number of outputs.  Runs `vrank_tr_fast` (= vrank_tr, Proofs/KernelsMapFast.v: the same text with
+   a bind that evaluates its continuation once; vm_compute shares nothing and `tbind` costs 2^depth).   *)
 Definition same_f (a b : float) : bool := (PrimFloat.is_nan a && PrimFloat.is_nan b) || PrimFloat.eqb a b.
 Definition enc_wseg (xs : list float) (s : wseg) : list Z :=
   flat_map c_int (read_nums (map (acc_rep same_f xs) (ws_reads s)))
-  ++ (match ws_write s with Some i => enc_acc (AUset i) | None => [] end)
+  ++ (match ws_write s with
+      | Some i => enc_acc (AUset (class_rep same_f xs i)) ++ enc_acc (AUset i)
+      | None => []
+      end)
   ++ c_sep.
 Definition run_vrank_segs (pct rev : bool) (xs : list float) : list Z :=
-  flat_map (enc_wseg xs) (vrank_segs (DT := IsNoneF64) (DX := IsNoneX_float) pct rev xs)
-  ++ (match snd (vrank_tr (DT := IsNoneF64) (DX := IsNoneX_float) pct rev xs) with
+  flat_map (enc_wseg xs) (vrank_segs_fast (DT := IsNoneF64) (DX := IsNoneX_float) pct rev xs)
+  ++ (match snd (vrank_tr_fast (DT := IsNoneF64) (DX := IsNoneX_float) pct rev xs) with
       | Ok l => c_nat (length l)
       | Panic k => c_panic k
       end).
